@@ -17,6 +17,7 @@ CONSTANTS
   WithRejects = TRUE
   ExportOneIn = 1
   RecoveryCrashes = FALSE
+  Batch = TRUE
 INVARIANTS NoViolation CacheCounterExact ChunksAbut DurableIsPrefix Export 
 VIEW View
 ALIAS Alias
